@@ -77,3 +77,53 @@ NOTES["C05"] = dict(
           "that have already arrived; traces are validated per run."),
     technique="Lean 4 proof over an abstract MPI transition system + schedule-forcing PMPI layer with trace validation",
 )
+
+NOTES["C11"] = dict(
+    text=("Lean theorems over an arbitrary field, any weight: every row update of SOR/SSOR and of the distributed hybrid sweeps equals the textbook "
+          "formula; a full forward/backward sweep satisfies the Gauss-Seidel/SOR recurrence (new values before i, old after i, halo frozen); the "
+          "sweeps (any number) leave x unchanged iff A x = b (sorForward_fixed_iff); Jacobi likewise. The executable model reproduces the real "
+          "sequential and distributed routines at double precision (same operation order) on every generated system/layout/weight, the "
+          "right-hand side is compared bit for bit before/after, and the diagonal-first layout established by the distributed routines is checked."),
+    note="Partial: rounding (exact field in the theorems, 1e-10 relative tolerance in the runs).",
+    technique="Lean 4 proof (field_simp/ring, induction over rows) on an executable model; Float correspondence with the real sweeps",
+)
+NOTES["C09"] = dict(
+    text=("Lean theorems: the cycle model fixes every solution of A x = b given a fixing smoother and zero-preserving coarse levels "
+          "(cycle_fixes_solution, any depth); a one-level cycle is the coarse solve, exact for every nonsingular A; in the abstract module setting "
+          "the cycle of any depth is jointly linear in (x, b) and the error propagation is a linear operator independent of b. The model cycle "
+          "(partition-aware hybrid smoothing, own Gaussian elimination) reproduces the real cycle() of the distributed solvers on dumped "
+          "hierarchies; histories of cycle/solve/PCG/BiCGStab calls are replayed as independent pure calls; identical inputs must give "
+          "bit-identical outputs anywhere in the history; b, the user's matrix and the hierarchy (hash) must be unchanged; linearity, fixed "
+          "point and single-level exactness are also evaluated on the implementation's outputs."),
+    note="Partial: rounding; LAPACK assumed to solve the system it is given (the driver uses its own elimination); sequential Multilevel classes not yet in the harness.",
+    technique="Lean 4 proof (list model + abstract linear maps) ; operation-sequence correspondence at double precision",
+)
+NOTES["C01"] = dict(
+    text=("Lean theorems for ANY cycle function and residual functional: the solve loop returns the iterate after `iters` cycles, its history is exactly "
+          "the residual of every iterate, no earlier iterate met the tolerance, and iters < limit implies residual <= tol (solve_truthful); with a "
+          "NaN-aware scalar a NaN residual stops the loop at once, so truthfulness needs a finite residual (solve_nan_stops, solve_truthful_nf). "
+          "The real solvers are driven through solve() and, from the same start, cycle by cycle; the driver recomputes every relative residual "
+          "with its own SpMV/norm from the user's matrix, checks the reported history, the returned vector, the stop decision of the model on the "
+          "code's own iterates, finiteness and the true residual whenever convergence is reported."),
+    note="Partial: rounding (1e-6 relative on residual norms); depends on C02 (residual) and C17 (norm) for the kernels used by solve().",
+    technique="Lean 4 proof of the stopping logic for arbitrary cycles; iterate-level correspondence with independent residual recomputation",
+)
+NOTES["C10"] = dict(
+    text=("Lean theorems over real inner-product spaces, any number of levels: with A symmetric positive semidefinite, R the adjoint of P, Galerkin "
+          "coarse operators, an exact coarsest solve and energy-non-expansive smoothers (Gauss-Seidel forward/backward, SSOR, and SOR for "
+          "0 < omega <= 2 are proved non-expansive from the splitting A = L + D + U), the V-cycle error propagation does not increase the energy "
+          "norm (vcycle_nonexpansive, by induction over a dependent hierarchy type; vcycle_nonexpansive_spd discharges coarse solvability from "
+          "injective P). The harness runs SPD families with SOR/SSOR weight 1 on one process and the driver evaluates the A-norm of the error "
+          "against the manufactured solution after every real cycle; Galerkin/conformity hypotheses are checked on the same dumps by C08."),
+    note="Partial: rounding (theorem over the reals; run allows 1e-9 relative slack).",
+    technique="Lean 4 proof (Mathlib inner-product spaces, induction over levels); energy-norm evaluation of the real iterates",
+)
+NOTES["C08"] = dict(
+    text=("Certificate check of every hierarchy built by the real setup (RS and aggregation, all options drawn at random, layouts with empty ranks, "
+          "tap levels): the driver recomputes P^T A P from the dumped global triplets and requires equality with the stored coarse operator up to "
+          "1e-8 of its largest entry, P with one row per fine and one column per coarse unknown, work vectors of the level's size, global sizes "
+          "equal to sums of local sizes on every rank, every row/column identifier owned by some rank of the right level, strictly fewer "
+          "unknowns on the next level, and the stopping rule (size or depth limit). The SpGEMM used by setup is proved in C06 (galerkin)."),
+    note="The setup loop itself is validated per run (certificate), not proved for all inputs; coarsening quality is not part of the property.",
+    technique="per-instance certificate checking of dumped hierarchies against the Galerkin/conformity predicates; Lean SpGEMM theorems (C06)",
+)
